@@ -27,7 +27,8 @@ def fmtDisp : Registry.Disp → String
 
 def parseDisp (s : String) : Option Registry.Disp :=
   -- an optional `+<hex flags>` suffix (extra sa_flags of the foreign handler) does not matter to the model
-  match ((s.splitOn "+").headD "").splitOn ":" with
+  -- likewise a `~<signal>` suffix (a signal in the foreign handler's sa_mask)
+  match ((((s.splitOn "~").headD "").splitOn "+").headD "").splitOn ":" with
   | ["dfl"] => some .dfl
   | ["ign"] => some .ign
   | ["h1", f] => f.toNat?.map .h1
